@@ -140,6 +140,42 @@ def judge_chain(sources, r, vec):
     return fails
 
 
+def _corr_const(_):
+    """a constant column among the selected sources: nothing is claimed about its correlated copy, but the columns added, their pairing with the
+    non-constant sources and the self-description must still be consistent"""
+    st = Stats()
+    menu = normal_menu(4)
+    cols = [[0, 1, 2, 1], [5, 5, 5, 5], [2, 0, 1, 1]]
+    for indices in ([0, 1], [1, 0], [1, 2], [0, 1, 2], [1]):
+        for r in (0.8, -0.5):
+            for vi in (0, 1):
+                X = np.array(cols, dtype=float).T
+                g = gen_cls()()
+                with np.errstate(all='ignore'):
+                    ok, out = safe(with_normal, menu[vi], g.generate_correlated, X.copy(), list(indices), r)
+                st.count('evaluations')
+                st.count('nontrivial')
+                st.count('correlated_cases')
+                case = {'kind': 'corr_const', 'indices': list(indices), 'r': r, 'normal': vi}
+                if not ok:
+                    st.violation(case, f'generate_correlated raised {out}', {'kind': 'exception'})
+                    continue
+                info = g.dataset_info['correlations'][-1]
+                rec = np.atleast_1d(np.asarray(info['correlated_indices'])).tolist()
+                added = list(range(3, out.shape[1]))
+                if rec != added or len(added) != len(indices):
+                    st.violation(case, f'sources {list(indices)} (column 1 is constant): {len(added)} columns added {added}, dataset_info lists {rec}', {'kind': 'info_correlated'})
+                    continue
+                for k, i in enumerate(indices):
+                    if i == 1:
+                        continue
+                    c = float(np.corrcoef(X[:, i], out[:, 3 + k])[0, 1])
+                    if not abs(c - r) <= 1e-6:
+                        st.violation(case, f'source {i} is paired with added column {3 + k}, whose correlation with it is {c!r}, requested {r}', {'kind': 'correlation_pairing'})
+                        break
+    return st
+
+
 def _corr_chain(job):
     lo, hi = job
     st = Stats()
@@ -528,12 +564,13 @@ def _dispatch(item):
     k, job = item
     if k == 'labels':
         return _labels_job(job)[0]
-    return {'corr': _corr_job, 'corr_chain': _corr_chain, 'corr_long': _corr_long, 'seq': _seq_job, 'noise_ctrl': _noise_ctrl_job, 'noise_seed': _noise_seed_job, 'down': _down_job}[k](job)
+    return {'corr': _corr_job, 'corr_chain': _corr_chain, 'corr_const': _corr_const, 'corr_long': _corr_long, 'seq': _seq_job, 'noise_ctrl': _noise_ctrl_job, 'noise_seed': _noise_seed_job, 'down': _down_job}[k](job)
 
 
 def run(ctx):
     jobs = [('corr', (lo, hi)) for lo, hi in shards(78, 26)]
     jobs.append(('corr_long', None))
+    jobs.append(('corr_const', None))
     jobs += [('corr_chain', (lo, hi)) for lo, hi in shards(78, 6)]
     nm = len(call_menu())
     jobs += [('seq', (1, 0, nm))]
@@ -566,6 +603,8 @@ def eval_case(case):
     if k == 'correlated':
         n = len(case['cols'][0])
         return [m for _, m in judge_correlated(case['cols'], case['indices'], case['r'], normal_menu(n)[case['normal']])]
+    if k == 'corr_const':
+        return [v['what'] for v in _corr_const(None).violations if v['case']['indices'] == case['indices']]
     if k == 'corr_chain':
         return [m for _, m in judge_chain([tuple(c) for c in case['sources']], case['r'], normal_menu(4)[case['normal']])]
     if k == 'sequence':
